@@ -9,6 +9,11 @@ NOTE = ("Trusted: Lean 4.33 kernel + Mathlib (axioms propext/Classical.choice/Qu
 CLAIMED = {
  "C12": ("proof", "Theorems over ℝ for every system size/grid: Thomas solver correct on strictly diagonally dominant systems, interior FD rows annihilate constants and give ∇²r²=4 exactly, uniform=non-uniform on uniform grids, wall potential exactly 0 for every charge, linearity in the charge. Model tied to the code by bit-exact correspondence (≤4 ulp) of tridiagonal_matrix_algorithm, fd_system_*, radial_potential_*; Gauss-law and convergence-order clauses are monitored numerically, not proved.",
          "§4 C12", "Lean theorems on a hand model + bit-exact differential correspondence"),
+
+ "C15": ("proof", "The Lean definitions of all eleven plasma kernels are regenerated from plasma.py on every run; 28 theorems over ℝ: each generated definition equals its documented (NRL/Spitzer) expression, clog_ii symmetric, pairwise heat exchange conserves energy including all clamped cases, heat flows hot→cold, rates/heating/Coulomb-log non-negative and zero for neutrals / low density, v_e in (0,c) and strictly increasing, escape rate non-negative, antitone, constant below the clamp. Generated definitions are validated against the compiled kernels (1e-11 relative, all reachable control-flow paths, scalar/array/broadcast shapes).",
+         "§4 C15", "Lean theorems on definitions generated from the source + differential validation of the translator"),
+ "C16": ("proof", "Core-Lean theorems for all n_cols and n_threads>=1: chunks cover 0..n-1 exactly once in order, are non-empty, contiguous, at most n_threads, sizes differ by <=1; threaded block evaluation = column-wise evaluation for every rhs; scan through an order-preserving map = sequential. Model tied to _multithreading_indices exhaustively (1..16 x 1..400) and to _chunked_adv_rhs bit-exactly. PARTIAL: real thread/process interleavings and fresh-process repetition are runtime behaviour, exercised by bit-exact monitors, not proved.",
+         "§4 C16", "Lean theorems (bookkeeping, all sizes) + exhaustive correspondence + bit-exact runtime monitors"),
 }
 PENDING = {}
 def main():
